@@ -31,6 +31,13 @@ def dates(r, n):
     return out
 
 
+TIME_TAILS = [' and after 6PM', ' and later 7 pm']
+
+
+def car_has_time(q, st, en):
+    return any(q[en + 1:].startswith(t) for t in TIME_TAILS)
+
+
 def check(m, culture, layout, d, q, st, en, ref, ctx, second=None):
     where = {'model': 'DateTimeModel', 'culture': culture, 'layout': layout}
     case = {'culture': culture, 'layout': layout, 'date': d.isoformat(), 'query': q, 'span': [st, en], 'reference': ref.isoformat(),
@@ -46,6 +53,9 @@ def check(m, culture, layout, d, q, st, en, ref, ctx, second=None):
         ctx.fail('exception', where, key, case, exp, repr(e))
         return
     obs = dtlib.view(r)
+    if car_has_time(q, st, en):
+        # carriers that contain a clock time of their own: only the entities touching the date expression are judged
+        r = [e for e in r if e is not None and e.start <= en and e.end >= st]
     ok = (len(r) == 1 and r[0].type_name == 'datetimeV2.date' and r[0].start == st and r[0].end == en and
           len(dtlib.vals(r[0])) == 1 and dtlib.vals(r[0])[0].get('timex') == exp and dtlib.vals(r[0])[0].get('value') == exp and
           dtlib.vals(r[0])[0].get('type') == 'date')
@@ -155,6 +165,11 @@ def run(job, ctx):
             q = car.format(s)
             st = q.index(s)
             check(m, cu, name, d, q, st, st + len(s) - 1, ref, ctx, second)
+            if cu == 'en-us' and i % 7 == 0:
+                # the date followed by a suffix word and a clock time (the date must survive whatever becomes of the time)
+                q2 = 'I can only leave on ' + s + r.choice(TIME_TAILS)
+                st2 = q2.index(s)
+                check(m, cu, name, d, q2, st2, st2 + len(s) - 1, ref, ctx, None)
 
 
 def replay_case(fail, ctx):
